@@ -27,7 +27,7 @@ RULE = (
 EXHAUSTIVE_PART = "per base configuration: all fault points of the classes body-exception, unserializable, unencodable, k-th filesystem call (plus LINE failpoints in the thorough tier)"
 ASSUMPTIONS = ["faults occur only at the enumerated points", "MemoryFS/NativeOSFS subclasses behave like their parents"]
 MONITORS = ["fault_free_control", "body_exception", "unserializable", "unencodable", "fs_call_fault", "line_failpoint"]
-REQUIRED = ["body_KeyboardInterrupt", "body_SystemExit", "body_CancelMutation", "body_StopIteration", "body_GeneratorExit",
+REQUIRED = ["body_UnicodeEncodeError", "backup_after_inplace_chart_edit", "body_KeyboardInterrupt", "body_SystemExit", "body_CancelMutation", "body_StopIteration", "body_GeneratorExit",
             "unencodable_utf-8", "unencodable_cp1252", "unencodable_cp932", "unencodable_cp949", "fault_open_w_backup",
             "fault_open_w_output", "fault_write_backup", "fault_write_output", "fault_close", "partial_write",
             "backup_carried_disjunction", "ssc_chart_without_notes", "preexisting_output_file", "surrogate_on_utf8_inplace"]
@@ -104,13 +104,28 @@ class BadReplace(str):
 
 def body_script(ext):
     return [["set", "TITLE", "new title"], ["set", "ADDED", "x:y"], ["setattr", "artist", "someone"],
-            ["set", "ADDED2", "z"], ["setattr", "title", "final"]]
+            ["chart_inplace"], ["set", "ADDED2", "z"], ["setattr", "title", "final"]]
+
+
+def apply_body(s, op, ext):
+    if op[0] == "chart_inplace":
+        # edit the charts in place: an existing chart's field, and the list itself
+        if s.charts:
+            s.charts[0].meter = "77"
+            s.charts[0].description = "edited in place"
+        from simfile.sm import SMChart
+        from simfile.ssc import SSCChart
+
+        s.charts.append(SMChart.blank() if ext == "sm" else SSCChart.blank())
+    else:
+        E.apply_real(s, op, [], ext)
 
 
 def enumerate_faults(base, n_props, n_charts, control_trace, line_events):
     faults = []
     script = body_script(base["ext"])
-    for exc in ("ValueError", "KeyError", "Custom", "StopIteration", "KeyboardInterrupt", "SystemExit", "GeneratorExit", "CancelMutation"):
+    for exc in ("ValueError", "KeyError", "Custom", "StopIteration", "KeyboardInterrupt", "SystemExit", "GeneratorExit", "CancelMutation",
+                "UnicodeEncodeError", "UnicodeDecodeError", "OSError", "AttributeError", "RuntimeError"):
         for p in range(len(script) + 1):
             faults.append({"class": "body", "exc": exc, "pos": p})
     for kind in ("int", "badreplace", "unencodable"):
@@ -159,6 +174,7 @@ def run(base, fault, want_lines=False):
         rec.n = 0
         raised = None
         thrown = None
+        thrown_args = None
         snaps = {}
         script = body_script(ext)
         lines = None
@@ -174,17 +190,19 @@ def run(base, fault, want_lines=False):
                 snaps["n_charts"] = len(s.charts)
                 if fault is None or fault["class"] in ("fs", "line"):
                     for op in script:
-                        E.apply_real(s, op, [], ext)
+                        apply_body(s, op, ext)
                 elif fault["class"] == "body":
                     for i, op in enumerate(script):
                         if i == fault["pos"]:
                             thrown = make_exc(fault["exc"])
+                            thrown_args = thrown.args
                             raise thrown
-                        E.apply_real(s, op, [], ext)
+                        apply_body(s, op, ext)
                     thrown = make_exc(fault["exc"])
+                    thrown_args = thrown.args
                     raise thrown
                 else:
-                    E.apply_real(s, script[0], [], ext)
+                    apply_body(s, script[0], ext)
                     plant(s, fault, base)
                 if fp:
                     fp.arm()
@@ -196,6 +214,7 @@ def run(base, fault, want_lines=False):
         trace = list(rec.log)
         after = world.snapshot()
         return {"before": before, "after": after, "trace": trace, "raised": raised, "thrown": thrown, "snaps": snaps,
+                "thrown_args": thrown_args,
                 "data": data, "in": world.rel(inp), "out": world.rel(out) if out else None, "bak": world.rel(bak) if bak else None,
                 "fired": rec.fired, "lines": lines, "world_kind": base["fs"], "enc": base["enc"]}
     finally:
@@ -217,7 +236,11 @@ def make_exc(name):
 
     return {"ValueError": ValueError("boom"), "KeyError": KeyError("boom"), "Custom": Custom("boom"),
             "StopIteration": StopIteration("boom"), "KeyboardInterrupt": KeyboardInterrupt(), "SystemExit": SystemExit(3),
-            "GeneratorExit": GeneratorExit(), "CancelMutation": simfile.CancelMutation()}[name]
+            "GeneratorExit": GeneratorExit(), "CancelMutation": simfile.CancelMutation(),
+            "UnicodeEncodeError": UnicodeEncodeError("ascii", "caf\u00e9", 3, 4, "ordinal not in range(128)"),
+            "UnicodeDecodeError": UnicodeDecodeError("utf-8", b"\xff", 0, 1, "invalid start byte"),
+            "OSError": OSError(28, "No space left on device"), "AttributeError": AttributeError("boom"),
+            "RuntimeError": RuntimeError("generator raised StopIteration")}[name]
 
 
 def plant(s, fault, base):
@@ -311,6 +334,8 @@ def judge(ctx, base, fault, r, cls, one):
     backup_ok = bool(bak) and after.get(bak) is not None and S0 is not None and \
         parses_to(after[bak], r["enc"], r["world_kind"], S0, cls) and before.get(bak) != after.get(bak)
     fc = fault["class"]
+    if bak and before.get(bak) != after.get(bak) and S0 is not None and len(S0.charts) > 0:
+        ctx.feat("backup_after_inplace_chart_edit")
     detail = {"base": base, "fault": fault, "changed": changed, "raised": repr(r["raised"]), "trace": [[t[0], t[1], str(t[2])] for t in r["trace"] if t[0] is not None]}
     if out and before.get(out) is not None:
         ctx.feat("preexisting_output_file")
@@ -323,7 +348,8 @@ def judge(ctx, base, fault, r, cls, one):
         if fault["exc"] == "CancelMutation":
             ctx.expect(r["raised"] is None, "body-exception:CancelMutation-not-swallowed", **detail)
         else:
-            ctx.expect(r["raised"] is r["thrown"], f"body-exception:{fault['exc']}-not-propagated-unchanged", **detail)
+            same = r["raised"] is r["thrown"] and getattr(r["raised"], "args", None) == r.get("thrown_args")
+            ctx.expect(same, f"body-exception:{fault['exc']}-not-propagated-unchanged", **detail)
         return
 
     if fc in ("int", "badreplace", "chart_without_notes", "unencodable"):
